@@ -308,14 +308,16 @@ fn norm_hdr(h: &TcpHeader, iss: u32, irs: u32) -> String {
 
 fn norm_snapshot(s: &VerifTcbSnapshot, iss: u32, irs: u32) -> String {
     let synsent = s.state == State::SynSent;
-    // RCV.* and SND.WL1 are unset (absolute 0) until the peer's SYN arrives
+    // RCV.*, SND.WL1 and SND.WL2 are unset (absolute 0) until the peer's SYN arrives
     let r = |v: u32| if synsent { format!("abs{}", v) } else { format!("{}", rel(v, irs)) };
+    // SND.WL2 lives in the local space from then on (F-C12-2 repaired: ISS after a SYN without ACK)
+    let wl2 = if synsent { format!("abs{}", s.snd.4) } else { format!("{}", rel(s.snd.4, iss)) };
     let rtx: Vec<String> = s.retransmit.iter().map(|(h, t, n)| format!("{}/{}/{}", norm_hdr(h, iss, irs), full(t), *n as u8)).collect();
     let one: Vec<String> = s.oneshot.iter().map(|h| norm_hdr(h, iss, irs)).collect();
     // parked segments came from the peer: their SEQ lives in the peer's space, their ACK in ours
     let heap: Vec<String> = s.incoming_segments.iter().map(|(h, t)| format!("{}/{}", norm_hdr(h, irs, iss), full(t))).collect();
     format!(
-        "st={} L={} mtu={} una={} nxt={} wnd={} wl1={} iss={} irs={} rnxt={} rwnd={} ot={} rtx=[{}] one=[{}] heap=[{}] it={} rto={} tw={:?}",
+        "st={} L={} mtu={} una={} nxt={} wnd={} wl1={} wl2={} iss={} irs={} rnxt={} rwnd={} ot={} rtx=[{}] one=[{}] heap=[{}] it={} rto={} tw={:?}",
         state_str(s.state),
         s.initiation_listen as u8,
         s.mtu,
@@ -323,6 +325,7 @@ fn norm_snapshot(s: &VerifTcbSnapshot, iss: u32, irs: u32) -> String {
         rel(s.snd.1, iss),
         s.snd.2,
         r(s.snd.3),
+        wl2,
         rel(s.snd.5, iss),
         r(s.rcv.0),
         r(s.rcv.1),
@@ -485,10 +488,11 @@ fn compare(ops: &[String], alt: (u32, u32), scratch: &mut Out, out: &mut Out, pr
     out.count("run.identical");
 }
 
-/// scripted witnesses of the places where `tcb.rs` holds an ABSOLUTE number (notes/C12.md).
-/// F-C12-2: `SND.WL2` is copied from the ACK field of a SYN without ACK bit (0 from an Elvis
-/// peer) and stays so when the connection leaves SYN-RECEIVED through `close()`; the window-update
-/// test `SND.WL1 == SEG.SEQ && SND.WL2 <= SEG.ACK` then compares real ACK numbers with it.
+/// scripted witnesses of the places where `tcb.rs` held an ABSOLUTE number (notes/C12.md).
+/// F-C12-2 (repaired; these are regression probes now): `SND.WL2` was copied from the ACK field of
+/// a SYN without ACK bit (0 from an Elvis peer) and stayed so when the connection left
+/// SYN-RECEIVED through `close()` or a FIN; the window-update test
+/// `SND.WL1 == SEG.SEQ && SND.WL2 <= SEG.ACK` then compared real ACK numbers with it.
 fn probes(first_case: u64, scratch: &mut Out, out: &mut Out) {
     let scripts: [(&str, (u32, u32), &[&str]); 2] = [
         (
